@@ -3,7 +3,7 @@ import Evenio.Props.C12NoLeak
 /-!
 # C12 "never neither", continued: registry typing of `Insert` events, `remove_component`
 
-Steps (1) and (2) towards the history-level no-leak statement (which is still NOT proved, see the end).
+Steps (1) and (2) towards the history-level no-leak statement, which is still NOT proved (see "What remains").
 
 * **(1) registry typing** — `history_insShape`: in every world of every history from the empty world (any operations,
   every exit), every entry of the targeted-event registry of type `Insert<K j>` has `needsDrop = compNeedsDrop j` and a
@@ -21,6 +21,15 @@ Steps (1) and (2) towards the history-level no-leak statement (which is still NO
   position, in particular every value `World::get` could read — whose component type (before the removal) has a
   destructor is in the ledger.  With (i), (ii) of `Props/C12NoLeak.lean`: at EVERY place where a value leaves storage
   (`Insert` overwrite, `Remove`, `Despawn`, `remove_component`, `drop`) it is logged if its type has a destructor.
+
+## What remains for `history_no_leak`
+
+(3) the serial-based tracking predicate `∀ s, tracked w0 s → tracked w s ∨ s ∈ dropSers w.cdrops` with its table, paired
+with `WInvMid`, through the handler phase (`bump` changes values, not serials; `take` logs `(k, ser)` of an `Insert<K k>`),
+`flushWith` / `dropQueued` (uses (1) and "the entry at a queued item's index has the item's type"), the registration
+functions (component types of live indices are stable: `compsCore` up to `insEvents`), and `removeComponent` (uses (2));
+the component half of the registry typing (`kind = .insert c → compTy c = j`); and then (4) the induction over
+histories.  None of the one-step statements proved so far has an exception, and no counterexample is known.
 -/
 namespace Evenio
 namespace C12NoLeakHist
